@@ -1702,6 +1702,7 @@ impl Engine for C06 {
     fn gen(&self, seed: u64, run: u64, _tier: Tier) -> Trace {
         let mut rng = Rng::for_run(seed, run, "C06");
         let mut t = Trace::new("C06", seed, run);
+        crate::palette::draw_favourite_header(&mut rng);
         let kind = KINDS[rng.below(KINDS.len())];
         t.set_meta("builder", kind);
         // a quarter of the runs obtain their header values by decoding (a relay reusing parsed
@@ -1759,6 +1760,7 @@ impl Engine for C06 {
         if rng.chance(1, 3) {
             t.push(Step::new("verify", "same", vec![Arg::I(0)]));
         }
+        crate::palette::clear_favourite_header();
         t
     }
     fn step_is_fixed(&self, _t: &Trace, _idx: usize) -> bool {
@@ -1783,7 +1785,11 @@ impl Engine for C06 {
     fn exec(&self, t: &Trace, st: &mut RunStats) -> HResult<Option<Violation>> {
         let kind = t.meta_req("builder")?.to_string();
         let tagged = t.meta_req("encode")? == "tagged";
-        crate::model::set_headers_via_decode(if t.meta("headers") == Some("decoded") { 1 } else { 0 });
+        crate::model::set_headers_via_decode(if t.meta("headers") == Some("decoded") {
+            1
+        } else {
+            0
+        });
         let ops: Vec<&Step> = t.steps.iter().filter(|s| s.kind == "op").collect();
         let faults: Vec<&Step> = t.steps.iter().filter(|s| s.kind == "fault").collect();
         let verifies: Vec<&Step> = t.steps.iter().filter(|s| s.kind == "verify").collect();
@@ -1836,7 +1842,8 @@ impl Engine for C06 {
         // what counts is the content any decoder must see in each descriptor - computed by the
         // harness, not by coset (in "decoded" mode the decoder legitimately folds a small bignum
         // into an integer or moves a typed-field label out of the extras)
-        let effective: Vec<crate::model::MHeader> = encs.iter().map(|(h, _)| h.normalised()).collect();
+        let effective: Vec<crate::model::MHeader> =
+            encs.iter().map(|(h, _)| h.normalised()).collect();
         for a in 0..encs.len() {
             for b in (a + 1)..encs.len() {
                 if effective[a] == effective[b] {
@@ -1979,17 +1986,18 @@ impl Engine for C06 {
         // as read from the wire by the harness's own CBOR reader
         {
             let (body_id, payload, slot, signers, rcpts) = &wire_model;
-            let w =
-                match wire_view(&kind, &wire, tagged) {
-                    Some(w) => w,
-                    None => return Ok(Some(Violation::new(
+            let w = match wire_view(&kind, &wire, tagged) {
+                Some(w) => w,
+                None => {
+                    return Ok(Some(Violation::new(
                         "C06.I6",
                         format!(
                             "the encoded message is not the structure the builder describes: {}",
                             hex_short(&wire)
                         ),
-                    ))),
-                };
+                    )))
+                }
+            };
             let slot_default = match kind.as_str() {
                 "CoseSign1" | "CoseMac" | "CoseMac0" => Some(Vec::new()),
                 _ => None,
